@@ -545,8 +545,14 @@ func c20HashFile() ([]byte, *types.ReDKG) {
 		re.Participants = append(re.Participants, types.Participant{DKGPubKey: bytes.Repeat([]byte{byte(1 + i)}, 48), OldCommPubKey: bytes.Repeat([]byte{byte(11 + i)}, 32),
 			NewCommPubKey: bytes.Repeat([]byte{byte(21 + i)}, 32), Name: fmt.Sprintf("node_%d", i)})
 	}
-	for k := 0; k < 5; k++ {
-		re.Messages = append(re.Messages, storage.Message{ID: fmt.Sprintf("id-%d", k), DkgRoundID: re.DKGID, Offset: uint64(k), Event: fmt.Sprintf("event_%d", k),
+	for k := 0; k < 7; k++ {
+		round := re.DKGID
+		if k >= 5 {
+			// a dump holds whatever was on the board: messages of other rounds are contained messages as well (they are
+			// replayed like the rest), so an edit of theirs must show in the hash too
+			round = strings.Repeat("cd", 32)
+		}
+		re.Messages = append(re.Messages, storage.Message{ID: fmt.Sprintf("id-%d", k), DkgRoundID: round, Offset: uint64(k), Event: fmt.Sprintf("event_%d", k),
 			Data: []byte(fmt.Sprintf(`{"k":%d}`, k)), Signature: bytes.Repeat([]byte{byte(40 + k)}, 64), SenderAddr: fmt.Sprintf("node_%d", k%3), RecipientAddr: []string{"", "node_1"}[k%2]})
 	}
 	bz, _ := json.Marshal(re)
@@ -617,7 +623,7 @@ func c20HashRun(st *vstat.Stats, e c20Edit) *viol {
 		return violf("hash-insensitive:"+e.Field, "editing %s (entry %d) leaves the confirmation hash unchanged (%s)", e.Field, e.Idx, hex.EncodeToString(h0))
 	}
 	st.Class("edit:" + e.Field)
-	st.NonTrivial(fmt.Sprintf("%s/%d/%d", e.Field, e.Idx%5, e.Byte%64))
+	st.NonTrivial(fmt.Sprintf("%s/%d/%d", e.Field, e.Idx%7, e.Byte%64))
 	return nil
 }
 
